@@ -347,6 +347,11 @@ func TestC13_Migrate(t *testing.T) {
 				if got.DataLimit != want.DataLimit || got.Queued != want.Queued || got.Received != want.Received {
 					mfail(t, log, "C08/limit-or-progress-changed-by-upgrade", "record %d: limit %d queued %d received %d after the store upgrade, was limit %d queued %d received %d", i, got.DataLimit, got.Queued, got.Received, want.DataLimit, want.Queued, want.Received)
 				}
+			case "C18":
+				// identities survive the upgrade: every record is found under its own channel id, so no two collide
+				if got.ChannelID != want.ChannelID {
+					mfail(t, log, "C18/channel-id-changed-by-upgrade", "record %d reports channel id %s after the store upgrade, was %s", i, chidStr(got.ChannelID), chidStr(want.ChannelID))
+				}
 			case "C07":
 				if got.Queued != want.Queued || got.Sent != want.Sent || got.Received != want.Received || got.QueuedIdx != want.QueuedIdx || got.SentIdx != want.SentIdx || got.ReceivedIdx != want.ReceivedIdx {
 					mfail(t, log, "C07/totals-changed-by-upgrade", "record %d: byte totals / block indexes differ after the store upgrade:\n got  %s\n want %s", i, got.Core(), want.Core())
@@ -471,7 +476,7 @@ func TestC13_Migrate(t *testing.T) {
 			if n > 0 {
 				stats.For("C19").Nontrivial(stats.FP("upgrade", fmt.Sprint(statuses), n))
 			}
-		case p == "C06" || p == "C07" || p == "C08" || p == "C09" || p == "C10" || p == "C11":
+		case p == "C06" || p == "C07" || p == "C08" || p == "C09" || p == "C10" || p == "C11" || p == "C18":
 			stats.For(p).Eval()
 			stats.For(p).Class("through_store_upgrade")
 			if n > 0 {
